@@ -388,6 +388,62 @@ pub fn generate(seed: u64, tier: &str, sink: &mut Sink) {
             }
         }
     }
+    // ---------------------------------------------------------------- (1d) the peer stalls inside the TLS handshake
+    // The peer accepts the connection (or, as a proxy, agrees to the CONNECT) and then says nothing, or drips a
+    // handshake record byte by byte: the handshake is a phase like any other — T bounds it, and a silence longer
+    // than the read timeout alone ends the call with an error. A call that has not returned 3 s after its bound is
+    // reported as still running (its thread is left behind).
+    {
+        let agreed = b"HTTP/1.1 200 Connection established\r\n\r\n".to_vec();
+        let mut drip = vec![0x16u8, 3, 3, 0x40, 0, 2, 0, 0x3f, 0xfc, 3, 3];
+        drip.extend(std::iter::repeat(0u8).take(80));
+        // (name, via proxy, script, T, read timeout, bound)
+        let cfgs: Vec<(&'static str, bool, Vec<Srv>, Option<u64>, u64, u64)> = vec![
+            // (the property puts no figure on how soon after the read timeout the call ends; setting up the TLS library
+            // is part of the call — these rows ask for an error well before the peer's silence ends)
+            ("tls-handshake-stall-read-timeout-alone", false, vec![Srv::Hold(6000)], None, 200, 200 + 1500),
+            ("tls-handshake-stall-T", false, vec![Srv::Hold(6000)], Some(t), 5000, t + margin),
+            ("tls-handshake-stall-T-and-read-timeout", false, vec![Srv::Hold(6000)], Some(4000), 200, 200 + 1500),
+            ("tls-handshake-drip-T", false, vec![Srv::Drip(drip.clone(), 40), Srv::Hold(3000)], Some(t), 200, t + margin),
+            ("tunnel-tls-handshake-stall-read-timeout-alone", true, vec![Srv::ReadRequest, Srv::Send(agreed.clone()), Srv::Hold(6000)], None, 200, 200 + 1500),
+            ("tunnel-tls-handshake-stall-T", true, vec![Srv::ReadRequest, Srv::Send(agreed.clone()), Srv::Hold(6000)], Some(t), 5000, t + margin),
+            ("tunnel-tls-handshake-drip-T", true, vec![Srv::ReadRequest, Srv::Send(agreed.clone()), Srv::Drip(drip.clone(), 40), Srv::Hold(3000)], Some(t), 200, t + margin),
+        ];
+        // one row at a time: setting up the TLS library (reading the trust store) is part of the call and takes
+        // several hundred ms when seven threads do it at once — that would be this harness stalling, not the peer
+        for (name, via_proxy, script, timeout, read_timeout, bound) in cfgs {
+            let (tx, rx) = std::sync::mpsc::channel();
+            std::thread::spawn(move || {
+                let (port, _acc) = server(vec![script]);
+                attohttpc::verif_hooks::set_plain_tunnels(false);
+                let url = if via_proxy { "https://origin.test/".to_string() } else { format!("https://127.0.0.1:{}/", port) };
+                let mut rb = attohttpc::get(&url).read_timeout(Duration::from_millis(read_timeout)).connect_timeout(Duration::from_millis(1000));
+                if let Some(t) = timeout {
+                    rb = rb.timeout(Duration::from_millis(t));
+                }
+                if via_proxy {
+                    rb = rb.proxy_settings(attohttpc::ProxySettings::builder().https_proxy(url::Url::parse(&format!("http://127.0.0.1:{}", port)).ok()).build());
+                }
+                let t0 = Instant::now();
+                let res = rb.send().and_then(|r| r.bytes());
+                let el = t0.elapsed().as_millis() as u64;
+                let _ = tx.send((el, match &res { Ok(b) => format!("ok:{}", b.len()), Err(e) => format!("err:{}", io_kind(e)) }, res.is_err()));
+            });
+            let o = match rx.recv_timeout(Duration::from_millis(bound + 2000)) {
+                Ok((el, desc, failed)) => {
+                    if el > bound {
+                        Err((format!("late-{}", name), format!("took {} ms, bound {} ms ({})", el, bound, desc)))
+                    } else if !failed {
+                        Err((format!("stall-unreported-{}", name), desc.clone()))
+                    } else {
+                        Ok(())
+                    }
+                }
+                Err(_) => Err((format!("late-{}", name), format!("send() has not returned {} ms after it was called (bound {} ms): the peer is silent inside the TLS handshake and nothing ends the call", bound + 2000, bound))),
+            };
+            sink.push(Case { tags: vec!["kind=stall".into(), format!("phase={}", name)], op: format!("nop {}", name), impl_line: "nop".into(), oracle: o });
+        }
+    }
     // ---------------------------------------------------------------- (1c) a prepared request sent again
     // T is the budget of ONE send(): a prepared request whose first send() ran into a stall (and failed with a
     // real timeout) is sent again — at once, and after more than T has gone by — to a peer that answers
